@@ -146,6 +146,11 @@ func (c content) full() content {
 type qSpec struct {
 	Prefix string `json:"prefix"`
 	Where  *cond  `json:"where,omitempty"`
+	// Consume says how the consumer treats the result stream: "" / "buffer" = collect
+	// every record and look at them after the stream has ended (the producer has moved
+	// on long ago), "prompt" = compare every record the moment it is received,
+	// "slow" = like buffer, with a pause after every received record.
+	Consume string `json:"consume,omitempty"`
 }
 
 // cond is a node of the condition tree.
